@@ -45,15 +45,16 @@ const (
 	boBufLen
 	boHostDetach
 	boHostWrite
+	boKey
 	nBufOps
 )
 
 var boName = [...]string{"get", "put", "props", "fill", "set(array)", "set(typedArray)", "copyWithin", "slice", "subarray", "sort", "reverse",
 	"indexOf", "join", "at", "iter", "with", "toReversed", "toSorted", "new(buffer)", "new(typedArray)", "new(length)", "new(array)", "from", "of",
-	"new DataView", "DataView.get", "DataView.set", "ArrayBuffer.slice", "ArrayBuffer.byteLength", "host-detach", "host-write"}
+	"new DataView", "DataView.get", "DataView.set", "ArrayBuffer.slice", "ArrayBuffer.byteLength", "host-detach", "host-write", "key"}
 
 // weights of the op kinds (index = kind)
-var boWeight = [...]int{5, 6, 2, 7, 6, 7, 7, 8, 5, 4, 2, 3, 2, 2, 7, 2, 1, 2, 5, 3, 1, 2, 3, 2, 2, 5, 6, 2, 1, 1, 2}
+var boWeight = [...]int{5, 6, 2, 7, 6, 7, 7, 8, 5, 4, 2, 3, 2, 2, 7, 2, 1, 2, 5, 3, 1, 2, 3, 2, 2, 5, 6, 2, 1, 1, 2, 12}
 
 const (
 	itMap = iota
@@ -113,29 +114,32 @@ type varg struct {
 }
 
 type bop struct {
-	step   int
-	kind   int
-	sub    int
-	v, v2  int // receiver / source view
-	b      int // buffer
-	et     int // element type of a constructor op
-	a      [3]iarg
-	val    varg
-	vals   []varg
-	hasVal bool
-	srcArr bool // from(): source is an array literal
-	cbB    int
-	cbM    int
-	le     int // 0 omitted, 1 true, 2 false
-	sep    int // join: 0 omitted, 1 ";"
-	ctorHk bool
-	res    int // slot of the result view (-1: not registered)
-	resBuf int // slot of the result buffer (-1: not registered)
-	resHk  bool
-	host   []byte
-	sigEt  int
-	prog   *goja.Program
-	src    string
+	step     int
+	kind     int
+	sub      int
+	v, v2    int // receiver / source view
+	b        int // buffer
+	et       int // element type of a constructor op
+	a        [3]iarg
+	val      varg
+	vals     []varg
+	hasVal   bool
+	srcArr   bool // from(): source is an array literal
+	cbB      int
+	cbM      int
+	le       int     // 0 omitted, 1 true, 2 false
+	sep      int     // join: 0 omitted, 1 ";"
+	keyNum   float64 // boKey: the key, a Number ...
+	keyStr   string  // ... or a String
+	keyIsStr bool
+	ctorHk   bool
+	res      int // slot of the result view (-1: not registered)
+	resBuf   int // slot of the result buffer (-1: not registered)
+	resHk    bool
+	host     []byte
+	sigEt    int
+	prog     *goja.Program
+	src      string
 }
 
 func (o *bop) site(slot int) int { return o.step*32 + slot }
@@ -614,6 +618,8 @@ func (m *bmodel) genOp(W *core.Track, step int) *bop {
 		for i := 0; i < n; i++ {
 			o.host = append(o.host, p[(i+rot)%8])
 		}
+	case boKey:
+		m.genKeyOp(W, o, pickTA())
 	}
 	return o
 }
@@ -760,6 +766,8 @@ func (o *bop) render(m *bmodel) string {
 		return call(B, "slice", o.args(0, 1)...)
 	case boBufLen:
 		return B + ".byteLength"
+	case boKey:
+		return o.renderKey()
 	}
 	return ""
 }
@@ -836,6 +844,8 @@ func (o *bop) kindName() string {
 		if o.sub > 0 {
 			return boName[o.kind] + "(cmp)"
 		}
+	case boKey:
+		return keySigName(o)
 	}
 	return boName[o.kind]
 }
